@@ -15,12 +15,17 @@ import itertools
 import json
 import os
 import re
+import signal
+import threading
 import urllib.parse
 
 from . import common
+from . import c03_bind
+from . import c03_cov
 
 PROPERTY = 'C03'
-LEAN_TARGETS = ['CpProofs.C03', 'CpProofs.C03Tables', 'drv_c03']
+LEAN_TARGETS = ['CpProofs.C03', 'CpProofs.C03Malformed', 'CpProofs.C03Req', 'CpProofs.C03Bind', 'CpProofs.C03Tables',
+                'drv_c03']
 DRIVER = 'drv_c03'
 THEOREMS = [
     # the property, over the model
@@ -55,7 +60,49 @@ THEOREMS = [
     'CpProofs.C03.utf16le_rt',
     'CpProofs.C03.recodeQS_utf8',
     'CpProofs.C03.attemptCharsets_declared',
+    # both percent-decoders on EVERY input (malformed escapes), raw query bytes, attempt order, UTF-16-BE
+    'CpProofs.C03.pctJoin_escFix_pct',
+    'CpProofs.C03.unquoteImpl_cons_ne',
+    'CpProofs.C03.unquoteImpl_escape',
+    'CpProofs.C03.unquoteImpl_malformed',
+    'CpProofs.C03.unquoteImpl_of_noEscape',
+    'CpProofs.C03.bodyUnq_cons_ne',
+    'CpProofs.C03.bodyUnq_pct',
+    'CpProofs.C03.bodyUnq_escape',
+    'CpProofs.C03.recodeQS_fallback',
+    'CpProofs.C03.recodePathQs_utf8',
+    'CpProofs.C03.recodePathQs_latin1',
+    'CpProofs.C03.recodePathQs_path_fails',
+    'CpProofs.C03.C03_query_without_escape_accepted',
+    'CpProofs.C03.attemptCharsets_spec',
+    'CpProofs.C03.C03_first_attempt_wins',
+    'CpProofs.C03.C03_latin1_never_refused',
+    'CpProofs.C03.utf16be_rt',
+    # the request around the parsers: which bodies are read, statuses, multipart fields
+    'CpProofs.C03.selectProc_default',
+    'CpProofs.C03.selectProc_default_urlencoded_iff',
+    'CpProofs.C03.handleX_eq_handle_body',
+    'CpProofs.C03.handleX_eq_handle_nobody',
+    'CpProofs.C03.handleX_411_iff',
+    'CpProofs.C03.handleX_status',
+    'CpProofs.C03.lookup_addAllA',
+    'CpProofs.C03.partsParams_eq',
+    'CpProofs.C03.decodeEntity_eq',
+    'CpProofs.C03.fieldAtoms_eq_none',
+    'CpProofs.C03.C03_multipart_merge',
+    'CpProofs.C03.C03_multipart_handler_sees',
+    # binding to the handler's signature
+    'CpProofs.C03.C03_bind_catchall',
+    'CpProofs.C03.respond_catchall',
+    'CpProofs.C03.bindDecision_status',
+    'CpProofs.C03.C03_bind_400_needs_body_key',
+    'CpProofs.C03.C03_bind_5xx_witnesses',
+    'CpProofs.C03.C03_bind_never_5xx_full_false',
+    'CpProofs.C03.C03_bind_never_5xx_partial',
+    'CpProofs.C03.respond_status',
+    'CpProofs.C03.respond_handler',
     # tables regenerated from the live modules
+    'CpProofs.C03.tables_processors',
     'CpProofs.C03.tables_imagemap_pattern',
     'CpProofs.C03.tables_defaults',
     'CpProofs.C03.tables_body_pct1',
@@ -124,6 +171,8 @@ def tables(ctx):
     def strs(xs):
         return '[' + ', '.join(json.dumps(x) for x in xs) + ']'
 
+    body = _cpreqbody.RequestBody(io.BytesIO(b''), httputil.HeaderMap())
+    procs = sorted((k, getattr(v, '__name__', repr(v))) for k, v in body.processors.items())
     pct1 = [lst(uq(b'%' + bytes([b]))) for b in range(256)]
     pcthex = ['(%d, %d, %s)' % (h, l, lst(uq(b'%' + bytes([h, l])))) for h in hexd for l in hexd]
     src = [
@@ -141,6 +190,16 @@ def tables(ctx):
         '',
         '/-- `_cprequest.Request.methods_with_bodies` -/',
         'def methodsWithBodies : List String := %s' % strs(_cprequest.Request.methods_with_bodies),
+        '',
+        '/-- `RequestBody(...).processors`: media type (or top-level type) -> processor function, sorted by key -/',
+        'def requestBodyProcessors : List (String × String) := [%s]'
+        % ', '.join('(%s, %s)' % (json.dumps(k), json.dumps(v)) for k, v in procs),
+        '',
+        '/-- `_cpreqbody.Part.attempt_charsets` (class default) -/',
+        'def partAttemptCharsets : List String := %s' % strs(_cpreqbody.Part.attempt_charsets),
+        '',
+        '/-- `_cpreqbody.RequestBody.default_content_type` (no Content-Type header) -/',
+        'def defaultContentType : String := %s' % json.dumps(_cpreqbody.RequestBody.default_content_type),
         '',
         "/-- `_cpreqbody.unquote_plus(b'%' + bytes([b]))` for b = 0 … 255 -/",
         'def bodyPct1 : List (List Nat) := [',
@@ -186,8 +245,23 @@ def untx(t):
     return '' if t == '-' else ''.join(chr(int(x)) for x in t.split('.'))
 
 
+class PartRef(int):
+    """The model's `p<idx>`: the Part object of the multipart part with that wire index."""
+
+
 def parse_atom(a):
+    if a[0] == 'p':
+        return PartRef(a[1:])
     return int(a[1:]) if a[0] == 'i' else untx(a[1:])
+
+
+def _resolve_parts(v, parts):
+    if isinstance(v, list):
+        return [_resolve_parts(x, parts) for x in v]
+    if isinstance(v, PartRef):
+        p = parts[int(v)]
+        return {'part': p.get('filename'), 'data': p['value']}
+    return v
 
 
 def parse_params(s):
@@ -207,7 +281,11 @@ def parse_params(s):
 # real-code runner
 # ----------------------------------------------------------------------------------------------
 POISON = '\x00leaked-from-an-earlier-request'
+FORM = 'application/x-www-form-urlencoded'
+BODY_METHODS = ('POST', 'PUT', 'PATCH')          # Request.methods_with_bodies (theorem tables_defaults)
+HANG_SECONDS = 60
 _apps = {}
+_sig_apps = []
 _seen = {'calls': 0, 'kwargs': None, 'attempts': None}
 _cp = []
 
@@ -220,55 +298,149 @@ def _cherrypy():
     return _cp[0]
 
 
-def _get_app(qs_enc, attempt_cfg):
+def _canon_value(v):
+    """A handler argument as a plain observation: text, int, list of those; a multipart Part (file upload) becomes
+    {'part': filename, 'data': hex of its content}."""
+    if isinstance(v, (list, tuple)):
+        return [_canon_value(x) for x in v]
+    if isinstance(v, (str, int)) or v is None:
+        return v
+    if hasattr(v, 'filename') and hasattr(v, 'file'):
+        if v.file:
+            v.file.seek(0)
+            data = v.file.read()
+            v.file.seek(0)
+        else:
+            data = v.value
+        if isinstance(data, str):
+            data = data.encode('utf-8', 'surrogatepass')
+        return {'part': v.filename, 'data': bytes(data or b'').hex()}
+    return {'object': type(v).__name__}
+
+
+def _scribble(cherrypy, dicts):
+    # A handler may do what it likes with its arguments.  Scribble over every mutable object this request handed
+    # out, so that anything a parsing helper shares with a LATER request shows up there as a foreign value (what a
+    # request's handler receives must depend on that request only).
+    for d in dicts:
+        if isinstance(d, dict):
+            for v in list(d.values()):
+                if isinstance(v, list):
+                    v.append(POISON)
+            d[POISON] = POISON
+
+
+def _record(cherrypy, args, kwargs, loc=None):
+    try:
+        req = cherrypy.request
+        _seen['calls'] += 1
+        _seen['kwargs'] = {k: _canon_value(v) for k, v in kwargs.items()}
+        _seen['args'] = [_canon_value(a) for a in args]
+        if loc is not None:
+            _seen['locals'] = {k: ({kk: _canon_value(vv) for kk, vv in v.items()} if isinstance(v, dict)
+                                   else _canon_value(v)) for k, v in loc.items() if k != 'self'}
+        _seen['attempts'] = list(req.body.attempt_charsets)
+        _seen['ctype'] = req.body.content_type.value
+        _scribble(cherrypy, (kwargs, req.params, req.body.params, req.body.request_params)
+                  + tuple(v for v in (loc or {}).values() if isinstance(v, dict)))
+    except Exception as e:                     # a bug of this probe must not look like a CherryPy failure
+        _seen['probe_error'] = '%s: %s' % (type(e).__name__, e)
+
+
+def _processors(name):
+    from cherrypy import _cpreqbody
+    return {'empty': {}, 'text-form': {'text': _cpreqbody.process_urlencoded},
+            'form-only': {FORM: _cpreqbody.process_urlencoded}}[name]
+
+
+PROC_TOKENS = {None: 'D', 'empty': '~', 'text-form': '%s:u' % '.'.join(str(ord(c)) for c in 'text'),
+               'form-only': '%s:u' % '.'.join(str(ord(c)) for c in FORM)}
+
+
+def _get_app(case):
     cherrypy = _cherrypy()
-    key = (qs_enc, tuple(attempt_cfg) if attempt_cfg is not None else None)
-    if key not in _apps:
+    sig = case.get('sig')
+    att = case.get('attempt_cfg')
+    key = (case.get('qs_enc'), tuple(att) if att is not None else None, case.get('uri_enc'),
+           case.get('process_body'), case.get('processors'),
+           c03_bind.sig_token(sig) if sig is not None else None)
+    if key in _apps:
+        return _apps[key]
+    if sig is None:
         class Root(object):
             def index(*args, **kwargs):
-                _seen['calls'] += 1
-                _seen['kwargs'] = copy.deepcopy(kwargs)
-                _seen['attempts'] = list(cherrypy.request.body.attempt_charsets)
-                # A handler may do what it likes with its arguments.  Scribble over every mutable object this
-                # request handed out, so that anything a parsing helper shares with a LATER request shows up
-                # there as a foreign value (what a request's handler receives must depend on that request only).
-                for d in (kwargs, cherrypy.request.params, cherrypy.request.body.params,
-                          cherrypy.request.body.request_params):
-                    if isinstance(d, dict):
-                        for v in list(d.values()):
-                            if isinstance(v, list):
-                                v.append(POISON)
-                        d[POISON] = POISON
+                _record(cherrypy, args, kwargs)
                 return b'ok'
             index.exposed = True
-        conf = {}
-        if qs_enc is not None:
-            conf['request.query_string_encoding'] = qs_enc
-        if attempt_cfg is not None:
-            conf['request.body.attempt_charsets'] = list(attempt_cfg)
-        _apps[key] = cherrypy.Application(Root(), '', {'/': conf})
-    return _apps[key]
+
+            def default(*args, **kwargs):
+                _record(cherrypy, args, kwargs)
+                return b'ok'
+            default.exposed = True
+        root = Root()
+    else:
+        def rec(loc):
+            # request.params is what the model's `H <params>` stands for; the handler's own view is `locals`
+            _record(cherrypy, (), dict(cherrypy.request.params), loc)
+        root = c03_bind.make_root(sig, rec)
+    conf = {}
+    if case.get('qs_enc') is not None:
+        conf['request.query_string_encoding'] = case['qs_enc']
+    if att is not None:
+        conf['request.body.attempt_charsets'] = list(att)
+    if case.get('uri_enc') is not None:
+        conf['request.uri_encoding'] = case['uri_enc']
+    if case.get('process_body') is not None:
+        conf['request.process_request_body'] = bool(case['process_body'])
+    if case.get('processors') is not None:
+        conf['request.body.processors'] = _processors(case['processors'])
+    app = cherrypy.Application(root, '', {'/': conf})
+    _apps[key] = app
+    if sig is not None:                         # generated signatures: keep only the most recent applications
+        _sig_apps.append(key)
+        if len(_sig_apps) > 48:
+            _apps.pop(_sig_apps.pop(0), None)
+    return app
 
 
 CTYPE_STYLES = {
     'plain': '%s; charset=%s', 'quoted': '%s; charset="%s"', 'nospace': '%s;charset=%s',
     'spaced': '%s ;  charset=%s ', 'param-case': '%s; Charset=%s', 'extra-param': '%s; boundary=x; charset=%s',
-    'trailing-param': '%s; charset=%s; q=0.5',
+    'trailing-param': '%s; charset=%s; q=0.5', 'upper-value': '%s; CHARSET=%s', 'tab': '%s;\tcharset=%s',
 }
+
+
+def media_of(case):
+    """The media type the request is labelled with ('' = no Content-Type header reaches the server)."""
+    if case.get('b') is None or case.get('no_ctype'):
+        return ''
+    return case.get('media', FORM)
 
 
 def ctype_of(case):
     cs = case.get('declared')
-    base = 'application/x-www-form-urlencoded'
+    base = case.get('media', FORM) + case.get('ctype_extra', '')
+    if case.get('boundary'):
+        base += '; boundary=' + case['boundary']
     return base if cs is None else CTYPE_STYLES[case.get('ctype_style', 'plain')] % (base, cs)
 
 
+class _Hang(BaseException):
+    pass
+
+
+def _on_alarm(signum, frame):
+    raise _Hang()
+
+
 def run_real(case):
-    """One in-process WSGI request. Returns {'status': int, 'kw': dict|None, 'calls': n, 'attempts': list|None}."""
-    app = _get_app(case.get('qs_enc'), case.get('attempt_cfg'))
+    """One in-process WSGI request.  Returns {'status': int | 'raised X' | 'hang', 'kw': dict|None, 'calls': n,
+    'attempts': list|None, ...}: whatever the code under test does is an observation."""
+    app = _get_app(case)
     q = bytes.fromhex(case['q'])
     env = {
-        'REQUEST_METHOD': case.get('method', 'GET'), 'SCRIPT_NAME': '', 'PATH_INFO': '/',
+        'REQUEST_METHOD': case.get('method', 'GET'), 'SCRIPT_NAME': '',
+        'PATH_INFO': bytes.fromhex(case.get('path') or '2f').decode('latin-1'),
         'QUERY_STRING': q.decode('latin-1'), 'SERVER_NAME': 'localhost', 'SERVER_PORT': '80',
         'SERVER_PROTOCOL': 'HTTP/1.1', 'HTTP_HOST': 'localhost', 'REMOTE_ADDR': '127.0.0.1',
         'wsgi.version': (1, 0), 'wsgi.url_scheme': 'http', 'wsgi.input': io.BytesIO(b''),
@@ -277,30 +449,99 @@ def run_real(case):
     }
     if case.get('b') is not None:
         body = bytes.fromhex(case['b'])
-        env['CONTENT_TYPE'] = ctype_of(case)
-        env['CONTENT_LENGTH'] = str(len(body))
+        if not case.get('no_ctype'):
+            env['CONTENT_TYPE'] = ctype_of(case)
+        if not case.get('no_length'):
+            env['CONTENT_LENGTH'] = str(len(body))
         env['wsgi.input'] = io.BytesIO(body)
-    _seen.update(calls=0, kwargs=None, attempts=None)
+    _seen.clear()
+    _seen.update(calls=0, kwargs=None, attempts=None, args=None, locals=None, ctype=None)
     got = []
 
     def start_response(status, headers, exc_info=None):
         got.append(status)
         return lambda data: None
 
-    it = app(env, start_response)
+    timed = threading.current_thread() is threading.main_thread()
+    if timed:
+        old = signal.signal(signal.SIGALRM, _on_alarm)
+        signal.setitimer(signal.ITIMER_REAL, HANG_SECONDS)
+    status = None
     try:
-        for _ in it:
-            pass
+        try:
+            it = app(env, start_response)
+            try:
+                for _ in it:
+                    pass
+            finally:
+                if hasattr(it, 'close'):
+                    it.close()
+        except _Hang:
+            status = 'hang'
+        except Exception as e:               # noqa: whatever escapes the WSGI application is an observation
+            status = 'raised ' + type(e).__name__
     finally:
-        if hasattr(it, 'close'):
-            it.close()
-    if not got:
-        raise common.HarnessError('start_response was never called')
-    return {'status': int(got[0][:3]), 'kw': _seen['kwargs'], 'calls': _seen['calls'],
-            'attempts': _seen['attempts']}
+        if timed:
+            signal.setitimer(signal.ITIMER_REAL, 0)
+            signal.signal(signal.SIGALRM, old)
+    if _seen.get('probe_error'):
+        raise common.HarnessError('probe handler failed: ' + _seen['probe_error'])
+    if status is None:
+        if not got:
+            status = 'no start_response'
+        else:
+            try:
+                status = int(got[0][:3])
+            except (TypeError, ValueError):
+                status = 'status line %r' % (got[0],)
+    return {'status': status, 'kw': _seen['kwargs'], 'calls': _seen['calls'],
+            'attempts': _seen['attempts'], 'args': _seen['args'], 'locals': _seen['locals'],
+            'ctype': _seen['ctype']}
+
+
+NEW_DIMS = ('uri_enc', 'process_body', 'processors', 'media', 'no_length', 'no_ctype', 'parts', 'sig', 'path',
+            'boundary')
+
+
+def uses_new_dims(case):
+    if any(case.get(k) not in (None, False) for k in NEW_DIMS) or case.get('process_body') is not None:
+        return True
+    m = case.get('method', 'GET')
+    return (case.get('b') is not None) != (m in BODY_METHODS)
+
+
+def fields_token(case):
+    out = []
+    for p in case.get('parts') or []:
+        out.append('%s:%d:%s:%s' % ('N' if p.get('name') is None else tx(p['name']), 1 if p.get('filename') is not None
+                                    else 0, hx(bytes.fromhex(p['value'])),
+                                    cs_enum(p['charset']) if p.get('charset') else 'N'))
+    return '|'.join(out) or '~'
+
+
+def model_line_x(case):
+    """The `reqx` / `resp` line: every body dimension (and the handler's signature) spelled out."""
+    qs_enc = cs_enum(case['qs_enc']) if case.get('qs_enc') else 'utf8'
+    uri = cs_enum(case['uri_enc']) if case.get('uri_enc') else 'utf8'
+    decl = cs_enum(case['declared']) if case.get('declared') and case.get('b') is not None \
+        and not case.get('no_ctype') else 'N'
+    conf = 'N'
+    if case.get('attempt_cfg') is not None:
+        conf = ','.join(cs_enum(c) for c in case['attempt_cfg']) or '-'
+    pb = case.get('process_body') is not False and case.get('method', 'GET') in BODY_METHODS
+    has_len = case.get('b') is not None and not case.get('no_length')
+    body = hx(bytes.fromhex(case['b'])) if case.get('b') is not None else '-'
+    rest = '%s %s %s %s %d %d %s %s %s %s %s %s' % (
+        uri, qs_enc, hx(bytes.fromhex(case.get('path') or '2f')), hx(bytes.fromhex(case['q'])), pb, has_len,
+        PROC_TOKENS[case.get('processors')], tx(media_of(case)), decl, conf, body, fields_token(case))
+    if case.get('sig') is not None:
+        return 'resp %s %d %s' % (c03_bind.sig_token(case['sig']), len(case.get('atoms') or []), rest)
+    return 'reqx ' + rest
 
 
 def model_line(case):
+    if uses_new_dims(case):
+        return model_line_x(case)
     qs_enc = cs_enum(case['qs_enc']) if case.get('qs_enc') else 'utf8'
     decl = cs_enum(case['declared']) if case.get('declared') else 'N'
     conf = 'N'
@@ -310,9 +551,12 @@ def model_line(case):
     return 'req %s %s %s %s %s' % (qs_enc, hx(bytes.fromhex(case['q'])), decl, conf, body)
 
 
-def canon_model(line):
+def canon_model(line, case=None):
     if line.startswith('H '):
-        return {'status': 200, 'kw': parse_params(line[2:])}
+        kw = parse_params(line[2:])
+        if case is not None and case.get('parts'):
+            kw = {k: _resolve_parts(v, case['parts']) for k, v in kw.items()}
+        return {'status': 200, 'kw': kw}
     if line.startswith('S '):
         return {'status': int(line[2:]), 'kw': None}
     raise common.HarnessError('unexpected driver output %r' % line)
@@ -425,8 +669,44 @@ def second_opinion_body(b, attempts):
     return REFUSED
 
 
-def expected_of(case):
+def outside_quantifier(case):
+    """Why the statement says nothing about this request (None = it does).  The statement covers parameters "sent
+    as a query string and/or an application/x-www-form-urlencoded body" to a handler that can take them."""
+    sig = case.get('sig')
+    if sig is not None and not c03_bind.is_catch_all(sig):
+        return 'handler with named parameters'
+    if any(c >= 0x80 for c in bytes.fromhex(case.get('path') or '2f')):
+        return 'non-ASCII path'
+    if case.get('uri_enc') is not None and cs_enum(case['uri_enc']) != 'utf8' \
+            and any(c >= 0x80 for c in bytes.fromhex(case['q'])):
+        return 'request.uri_encoding is not utf-8 and the query string has raw non-ASCII bytes'
+    if case.get('uri_enc') is not None and cs_enum(case['uri_enc']) not in ('utf8', 'latin1', 'ascii'):
+        return 'request.uri_encoding is not ASCII-compatible'
+    if case.get('parts'):
+        return 'multipart body'
+    method = case.get('method', 'GET')
+    if case.get('b') is None:
+        if method in BODY_METHODS and case.get('process_body') is not False:
+            return 'body-carrying method without a body'
+        return None
+    if method not in BODY_METHODS:
+        return 'body on a method without bodies'
+    if case.get('process_body') is False:
+        return 'request.process_request_body is off'
+    if case.get('processors') is not None:
+        return 'request.body.processors overridden'
+    if case.get('no_ctype') or case.get('media', FORM) != FORM:
+        return 'body not labelled application/x-www-form-urlencoded'
+    if case.get('no_length'):
+        return 'no Content-Length'
+    return None
+
+
+def expected_of(case, ignore_sig=False):
     """(expected, why): expected = dict for the handler | ('status', {codes}) | None (statement silent)."""
+    out = outside_quantifier(dict(case, sig=None) if ignore_sig else case)
+    if out is not None:
+        return None, 'statement silent: ' + out
     q = bytes.fromhex(case['q'])
     enc = case.get('qs_enc') or 'utf8'
     eq = oracle_query(q, enc)
@@ -459,15 +739,55 @@ def expected_of(case):
     return group(eq + eb), 'round trip'
 
 
+def allowed_statuses(case):
+    """Status codes the statement (200 / 404 / 400) and plain HTTP (411 for a body without length) allow."""
+    ok = {200, 400, 404}
+    if case.get('method', 'GET') in BODY_METHODS and case.get('process_body') is not False \
+            and (case.get('b') is None or case.get('no_length')):
+        ok.add(411)
+    return ok
+
+
+def judge_binding(case, obs):
+    """A handler with named parameters.  The statement's "the handler receives exactly those keys and values" has one
+    consequence here that does not depend on CherryPy's error mapping: when CPython can bind the parameters the
+    request carries (and its path atoms) to the handler, the handler is called once with exactly those; when it
+    cannot, the handler's body does not run."""
+    bad = []
+    exp, why = expected_of(case, ignore_sig=True)
+    if not isinstance(exp, dict):
+        return bad, None
+    atoms = list(case.get('atoms') or [])
+    bound = c03_bind.py_bind(case['sig'], atoms, exp)
+    if bound is None:
+        if obs['calls']:
+            bad.append(('handler body ran although its signature cannot take %r + %r' % (atoms, exp), 'bound_impossible'))
+        return bad, ('unbindable', exp)
+    want = {k: ({kk: _canon_value(vv) for kk, vv in v.items()} if isinstance(v, dict) else _canon_value(v))
+            for k, v in bound.items() if k != 'self'}
+    if obs['status'] != 200 or obs['calls'] != 1:
+        bad.append(('parameters %r (path atoms %r) fit def default(%s), but the response is %s and the handler ran %d times'
+                    % (exp, atoms, c03_bind.param_list(case['sig']), obs['status'], obs['calls']), 'fitting_params_refused'))
+    elif obs['locals'] != want:
+        bad.append(('handler def default(%s) received %r, the request carried %r' % (
+            c03_bind.param_list(case['sig']), obs['locals'], want), 'bound_params_differ'))
+    return bad, ('bound', want)
+
+
 def judge(case, obs):
     """Property predicate on one observation -> list of (what, signature)."""
     bad = []
+    if not isinstance(obs['status'], int):
+        bad.append(('the request ended in %s instead of a response' % obs['status'], 'no_response'))
+        return bad, None
+    if case.get('sig') is not None and not c03_bind.is_catch_all(case['sig']):
+        return judge_binding(case, obs)
     exp, why = expected_of(case)
     if obs['calls'] > 1:
         bad.append(('handler called %d times' % obs['calls'], 'handler_called_twice'))
     if obs['status'] != 200 and obs['calls']:
         bad.append(('handler was called although the response is %d' % obs['status'], 'handler_called_on_refusal'))
-    if obs['status'] not in (200, 400, 404):
+    if obs['status'] not in allowed_statuses(case):
         bad.append(('status %d for %s (only 200, 404 for the query, 400 for the body are allowed)'
                     % (obs['status'], why), 'status_%d' % obs['status']))
         return bad, exp
@@ -792,11 +1112,189 @@ def gen_huge(rng):
     return case
 
 
+# ---- the dimensions around the parsers ---------------------------------------------------------
+DIM_KINDS = ['uri_enc', 'method-nobody', 'process_body', 'processors', 'media', 'no_ctype', 'no_length', 'empty-body',
+             'path', 'post-nobody', 'ctype-params']
+MEDIA = ['text/plain', 'application/json', 'Application/X-WWW-Form-Urlencoded', 'APPLICATION/X-WWW-FORM-URLENCODED',
+         'application/x-www-form-urlencoded2', 'application', 'text/x-form', 'application/octet-stream', 'x']
+CTYPE_EXTRA = ['; boundary=zzz', ';q=1', '; x="a;b"', '; format=flowed', ' ', ';', '; X=Y']
+
+
+def _ensure_body(rng, case):
+    if case.get('b') is None:
+        case['b'] = rng.choice([b'z=1', b'a=1&a=2', b'', b'k=%C3%A9']).hex()
+        case['bfrags'] = []
+        if case.get('method', 'GET') not in BODY_METHODS:
+            case['method'] = 'POST'
+
+
+def gen_dims(rng):
+    """A generated round-trip request with one or two of the dimensions around the parsers changed: uri_encoding,
+    a body on a method without bodies, process_request_body off, processors overridden, another media type (or
+    spelling), no Content-Type, no Content-Length, an empty body, a non-ASCII path, POST without body, extra
+    Content-Type parameters."""
+    case = gen_request(rng)
+    case.pop('truth', None)
+    kinds = rng.sample(DIM_KINDS, rng.choice([1, 1, 1, 2]))
+    for kind in kinds:
+        if kind == 'uri_enc':
+            case['uri_enc'] = rng.choice(['utf-8', 'UTF-8', 'ISO-8859-1', 'iso-8859-1', 'latin-1', 'ascii', 'us-ascii',
+                                          'utf-16'])
+        elif kind == 'method-nobody':
+            _ensure_body(rng, case)
+            case['method'] = rng.choice(['GET', 'DELETE', 'HEAD', 'OPTIONS'])
+        elif kind == 'process_body':
+            _ensure_body(rng, case)
+            case['process_body'] = rng.choice([False, False, True])
+        elif kind == 'processors':
+            _ensure_body(rng, case)
+            case['processors'] = rng.choice(['empty', 'text-form', 'form-only'])
+            if case['processors'] == 'text-form' and rng.random() < 0.7:
+                case['media'] = rng.choice(['text/plain', 'text/x-form', 'text'])
+                if rng.random() < 0.5:                  # RequestBody.__init__: text/* and the four Latin-1 spellings
+                    case['declared'] = rng.choice(['ISO-8859-1', 'iso-8859-1', 'Latin-1', 'latin-1', 'latin1', 'l1',
+                                                   'utf-8', 'us-ascii'])
+        elif kind == 'media':
+            _ensure_body(rng, case)
+            case['media'] = rng.choice(MEDIA)
+        elif kind == 'no_ctype':
+            _ensure_body(rng, case)
+            case['no_ctype'] = True
+        elif kind == 'no_length':
+            _ensure_body(rng, case)
+            case['no_length'] = True
+        elif kind == 'empty-body':
+            case.update(b='', bfrags=[])
+            if case.get('method', 'GET') not in BODY_METHODS:
+                case['method'] = 'POST'
+        elif kind == 'path':
+            case['path'] = rng.choice([b'/\xe9', b'/\xc3\xa9', b'/a/b', b'/\xff\xfe', b'/a', b'/\xc3\xa9/x']).hex()
+        elif kind == 'post-nobody':
+            case.update(b=None, bfrags=[], method=rng.choice(BODY_METHODS), declared=None)
+        elif kind == 'ctype-params':
+            _ensure_body(rng, case)
+            case['ctype_extra'] = rng.choice(CTYPE_EXTRA)
+    if case.get('b') is None:
+        case['declared'] = None
+    case['scenario'] = 'dims:' + '+'.join(sorted(kinds))
+    return case
+
+
+MP_NAMES = ['a', 'b', 'tag', 'x', 'y', 'file', 'k 1', 'na\xefve', 'parts', 'self', 'a=b']
+
+
+def build_multipart(parts, boundary):
+    out = bytearray()
+    for p in parts:
+        out += b'--' + boundary.encode('ascii') + b'\r\n'
+        disp = 'form-data'
+        if p.get('name') is not None:
+            disp += '; name="%s"' % p['name']
+        if p.get('filename') is not None:
+            disp += '; filename="%s"' % p['filename']
+        out += b'Content-Disposition: ' + disp.encode('latin-1') + b'\r\n'
+        if p.get('ctype'):
+            out += b'Content-Type: ' + p['ctype'].encode('latin-1') + b'\r\n'
+        out += b'\r\n' + bytes.fromhex(p['value']) + b'\r\n'
+    out += b'--' + boundary.encode('ascii') + b'--\r\n'
+    return bytes(out)
+
+
+def gen_parts(rng, names, prof='full', n=None):
+    parts = []
+    for _ in range(n if n is not None else rng.choice([0, 1, 1, 2, 2, 3, 4, 6])):
+        name = rng.choice(names)
+        if rng.random() < 0.08:
+            name = None
+        p = {'name': name, 'filename': None, 'charset': None, 'ctype': None}
+        r = rng.random()
+        if r < 0.25:                                   # a file upload: any bytes
+            p['filename'] = rng.choice(['f.bin', 'a b.txt', '', 'r\xe9sum\xe9.pdf'])
+            data = bytes(rng.randrange(256) for _ in range(rng.choice([0, 1, 5, 40])))
+            data = data.replace(b'\r', b'r').replace(b'\n', b'n').replace(b'--', b'-+')
+            if rng.random() < 0.15:
+                data = data * 60
+            p['ctype'] = rng.choice([None, 'application/octet-stream', 'image/png'])
+        else:
+            text = gen_text(rng, prof).replace('\r', ' ').replace('\n', ' ')
+            if rng.random() < 0.08:
+                text = text * 400 + 'x' * 1100          # beyond Part.maxrambytes: spooled to a file
+            text = text.replace('--', '-+')
+            cs = rng.choice([None, None, None, 'utf-8', 'latin-1', 'utf-16', 'us-ascii'])
+            r2 = rng.random()
+            if cs is None:
+                data = text.encode('utf-8')
+                if r2 < 0.1:
+                    data = text.encode('latin-1', 'replace') + b'\xe9'     # undecodable: neither ASCII nor UTF-8
+            else:
+                try:
+                    data = text.encode(cs)
+                except UnicodeEncodeError:
+                    data = text.encode('utf-8')       # declared-but-wrong: the fallbacks decide
+                p['charset'] = cs
+                p['ctype'] = rng.choice(['text/plain; charset=%s', 'text/plain;charset="%s"',
+                                         'application/x-custom; charset=%s']) % cs
+            data = data.replace(b'\r', b' ').replace(b'\n', b' ')
+        p['value'] = data.hex()
+        parts.append(p)
+    return parts
+
+
+def gen_multipart(rng):
+    """multipart/form-data (sometimes another multipart/*) with fields, repeated names, file uploads, per-part
+    charsets, next to a query string that uses the same names."""
+    names = rng.sample(MP_NAMES, rng.choice([1, 2, 3]))
+    parts = gen_parts(rng, names)
+    boundary = rng.choice(['XyZ', '----WebKitFormBoundary7MA4YWxkTrZu0gW', 'b', "a'b(c)"])
+    qfrags = []
+    for _ in range(rng.choice([0, 0, 1, 2, 3])):
+        k = rng.choice(names + ['q'])
+        qfrags.append(enc_query_text(rng, k, 'utf8', 'mixed', 'upper', False) + b'=' +
+                      enc_query_text(rng, gen_text(rng, 'full'), 'utf8', 'mixed', 'lower', False))
+    if rng.random() < 0.05:
+        qfrags = [b'3,4']
+    case = {'kind': 'req', 'q': b'&'.join(qfrags).hex(), 'qs_enc': None, 'method': rng.choice(['POST', 'POST', 'PUT']),
+            'b': build_multipart(parts, boundary).hex(), 'declared': None, 'attempt_cfg': None,
+            'media': rng.choices(['multipart/form-data', 'multipart/mixed', 'multipart/x'], weights=[80, 12, 8])[0],
+            'boundary': boundary, 'parts': parts, 'scenario': 'multipart', 'qfrags': [], 'bfrags': []}
+    if rng.random() < 0.06:
+        case['method'] = 'GET'                          # not read at all
+    if rng.random() < 0.05:
+        case['process_body'] = False
+    return case
+
+
+def gen_bind_request(rng):
+    """A request to a handler with a generated signature: path atoms, query keys and body keys aimed at the boundaries
+    of that signature (exactly the required ones, one missing, one extra, a positional given twice, ...)."""
+    sig = c03_bind.gen_sig(rng)
+    if rng.random() < 0.12:
+        sig = dict(c03_bind.CATCH_ALL, kind=rng.choice(['plain', 'method']), self_posonly=True)
+    nargs, flagged = c03_bind.gen_call(rng, sig)
+    atoms = ['p%d' % i for i in range(nargs)]
+    qf, bf = [], []
+    for k, from_body in flagged:
+        v = rng.choice(['1', 'v', '', '\u00e9', 'a b'])
+        frag = enc_query_text(rng, k, 'utf8', 'minimal', 'upper', False) + b'=' + \
+            enc_query_text(rng, v, 'utf8', 'minimal', 'upper', False)
+        (bf if from_body else qf).append(frag)
+        if rng.random() < 0.12:                         # the same key again, on either side: a list value
+            (bf if rng.random() < 0.5 else qf).append(frag)
+    case = {'kind': 'req', 'q': b'&'.join(qf).hex(), 'qs_enc': None, 'method': 'GET', 'b': None, 'declared': None,
+            'attempt_cfg': None, 'sig': sig, 'atoms': atoms, 'path': ('/' + '/'.join(atoms)).encode('ascii').hex(),
+            'scenario': 'bind', 'qfrags': [], 'bfrags': []}
+    if bf or rng.random() < 0.1:
+        case.update(method=rng.choice(['POST', 'PUT']), b=b'&'.join(bf).hex())
+    return case
+
+
 # ---- histories: several requests against one long-lived application ---------------------------
-def _req(q, body=None, declared=None, method=None, qs_cfg=None, att_cfg=None, role=''):
-    return {'kind': 'req', 'q': q.hex(), 'qs_enc': qs_cfg, 'method': method or ('GET' if body is None else 'POST'),
+def _req(q, body=None, declared=None, method=None, qs_cfg=None, att_cfg=None, role='', **extra):
+    case = {'kind': 'req', 'q': q.hex(), 'qs_enc': qs_cfg, 'method': method or ('GET' if body is None else 'POST'),
             'b': None if body is None else body.hex(), 'declared': declared, 'attempt_cfg': att_cfg,
             'scenario': 'history', 'role': role, 'qfrags': [], 'bfrags': []}
+    case.update(extra)
+    return case
 
 
 def gen_history(rng):
@@ -844,6 +1342,14 @@ def gen_history(rng):
     B = {'same': (b_same, None), 'more': (b_more, None), 'other': (b_other, None), 'xy': (b_xy, None),
          'l1-refused': (b_l1, None), 'l1-declared': (b_l1, 'latin-1'), 'l1-utf8-declared': (b_l1, 'utf-8'),
          'none': (None, None)}
+    # the same key as fields of a multipart form (merged into the same dict by the same loop)
+    mp_ok = all((0x20 <= ord(c) < 0x7f or 0xa0 <= ord(c) < 0x100) and c not in '"\\;,' for c in k0) \
+        and k0 == k0.strip()
+    mp_name = k0 if mp_ok else 'tag'
+    mp_parts = [{'name': mp_name, 'filename': None, 'charset': None, 'ctype': None,
+                 'value': v.replace('\r', ' ').replace('\n', ' ').replace('--', '-+').encode('utf-8').hex()}
+                for v in vals(rng.choice([1, 2]))]
+    MP = {'mp-same': dict(media='multipart/form-data', boundary='HiSt', parts=mp_parts)}
     templates = [
         [('list', 'same'), ('list', 'none'), ('list', 'more'), ('list', 'none')],
         [('list', 'none'), ('list', 'same'), ('list', 'none'), ('list', 'same'), ('list', 'none')],
@@ -856,6 +1362,8 @@ def gen_history(rng):
         [('list', 'l1-refused'), ('list', 'l1-declared'), ('list', 'none'), ('list', 'l1-refused'),
          ('list', 'l1-utf8-declared')],
         [('none', 'l1-refused'), ('none', 'l1-declared'), ('none', 'l1-refused'), ('none', 'l1-declared')],
+        [('list', 'mp-same'), ('list', 'none'), ('list', 'mp-same'), ('list', 'same'), ('list', 'none')],
+        [('scalar', 'mp-same'), ('scalar', 'none'), ('list', 'mp-same'), ('none', 'mp-same')],
     ]
     if rng.random() < 0.7:
         plan = list(rng.choice(templates))
@@ -863,10 +1371,15 @@ def gen_history(rng):
             plan = plan[:rng.randint(2, len(plan))]
     else:
         plan = [(rng.choice(['list', 'list', 'scalar', 'other', 'img', 'none']),
-                 rng.choice(['same', 'same', 'more', 'other', 'xy', 'l1-refused', 'l1-declared', 'none', 'none']))
+                 rng.choice(['same', 'same', 'more', 'other', 'xy', 'l1-refused', 'l1-declared', 'none', 'none',
+                             'mp-same']))
                 for _ in range(rng.randint(2, 6))]
     steps = []
     for qn, bn in plan[:6]:
+        if bn in MP:
+            steps.append(_req(Q[qn], build_multipart(MP[bn]['parts'], MP[bn]['boundary']), None,
+                              rng.choice(['POST', 'PUT']), qs_cfg, att_cfg, role='%s+%s' % (qn, bn), **MP[bn]))
+            continue
         body, declared = B[bn]
         if declared is not None and rng.random() < 0.3:
             declared = rng.choice(NAMES[declared])
@@ -987,7 +1500,7 @@ def check_histories(ctx, hists, compare=True, echo=False, minimise=True):
                     None if step.get('b') is None else bytes.fromhex(step['b']), step.get('declared')))
                 print('impl   :', {'status': obs['status'], 'kw': obs['kw']})
                 if lines is not None:
-                    print('model  :', canon_model(lines[pos + i]))
+                    print('model  :', canon_model(lines[pos + i], step))
                 print('oracle :', exp)
             done = set()
             for what, sig in bad:
@@ -1003,7 +1516,7 @@ def check_histories(ctx, hists, compare=True, echo=False, minimise=True):
                                    what), None)
             if lines is not None:
                 ctx.compared()
-                model = canon_model(lines[pos + i])
+                model = canon_model(lines[pos + i], step)
                 real = {'status': obs['status'], 'kw': obs['kw'] if obs['status'] == 200 else None}
                 if real != model:
                     ctx.disagree(dict(hist, failed_step=i), real, model,
@@ -1025,8 +1538,13 @@ def nontrivial(case):
 
 
 def case_key(case):
-    return '%s|%s|%s|%s|%s|%s|%s' % (case['q'], case.get('b'), case.get('qs_enc'), case.get('declared'),
-                                     case.get('attempt_cfg'), case.get('method'), case.get('ctype_style'))
+    k = '%s|%s|%s|%s|%s|%s|%s' % (case['q'], case.get('b'), case.get('qs_enc'), case.get('declared'),
+                                  case.get('attempt_cfg'), case.get('method'), case.get('ctype_style'))
+    if uses_new_dims(case):
+        k += '|' + '|'.join('%s' % (case.get(d),) for d in NEW_DIMS if d not in ('parts', 'sig'))
+        if case.get('sig') is not None:
+            k += '|' + c03_bind.sig_token(case['sig'])
+    return k
 
 
 def slim(case):
@@ -1114,21 +1632,31 @@ def check_requests(ctx, cases, compare=True):
             ctx.oracle_fail(slim(small), what, None)
         if lines is not None:
             ctx.compared()
-            model = canon_model(lines[idx])
+            model = canon_model(lines[idx], case)
             real = {'status': obs['status'], 'kw': obs['kw'] if obs['status'] == 200 else None}
             if real != model:
                 ctx.disagree(slim(case), real, model, 'handler arguments / status differ')
-        if obs['attempts'] is not None and case.get('b') is not None:
-            att_seen[(case.get('declared'), tuple(case['attempt_cfg']) if case.get('attempt_cfg') is not None
+        if obs['attempts'] is not None:
+            decl = case.get('declared') if case.get('b') is not None and not case.get('no_ctype') else None
+            att_seen[(media_of(case), decl, tuple(case['attempt_cfg']) if case.get('attempt_cfg') is not None
                       else None)] = obs['attempts']
+            if obs['ctype'] != media_of(case):
+                ctx.disagree(slim(case), obs['ctype'], media_of(case), 'request.body.content_type.value differs')
+        for d in NEW_DIMS:
+            if case.get(d) not in (None, False) or (d == 'process_body' and case.get(d) is False):
+                ctx.count('dim:%s%s' % (d, '=off' if case.get(d) is False else ''))
     # attempt_charsets as computed by Entity.__init__ + config vs the model
     if compare and att_seen and lines is not None:
         items = sorted(att_seen.items(), key=repr)
-        alines = ['att %s %s' % (cs_enum(d) if d else 'N',
-                                 'N' if c is None else (','.join(cs_enum(x) for x in c) or '-'))
-                  for (d, c), _ in items]
+        alines = ['ratt %s %s %s' % (tx(m), cs_enum(d) if d else 'N',
+                                     'N' if c is None else (','.join(cs_enum(x) for x in c) or '-'))
+                  for (m, d, c), _ in items]
+        alines += ['att %s %s' % (cs_enum(d) if d else 'N',
+                                  'N' if c is None else (','.join(cs_enum(x) for x in c) or '-'))
+                   for (m, d, c), _ in items if not m.startswith('text/')]
         outs = ctx.model(alines)
-        for ((d, c), real), out in zip(items, outs):
+        items = items + [it for it in items if not it[0][0].startswith('text/')]
+        for ((media, d, c), real), out in zip(items, outs):
             dedup = []
             for x in [cs_enum(n) for n in real]:
                 if x not in dedup:
@@ -1139,7 +1667,8 @@ def check_requests(ctx, cases, compare=True):
                     m.append(x)
             ctx.compared()
             if dedup != m:
-                ctx.disagree({'kind': 'att', 'declared': d, 'attempt_cfg': c}, dedup, m, 'attempt_charsets differ')
+                ctx.disagree({'kind': 'att', 'media': media, 'declared': d, 'attempt_cfg': c}, dedup, m,
+                             'attempt_charsets differ')
 
 
 # ---- unit level --------------------------------------------------------------------------------
@@ -1352,6 +1881,9 @@ def gen_mixed(rng, n):
         r = rng.random()
         if i % 400 == 399:
             out.append(gen_huge(rng))
+        elif i % 5 == 4:
+            r2 = rng.random()
+            out.append(gen_dims(rng) if r2 < 0.5 else gen_multipart(rng) if r2 < 0.75 else gen_bind_request(rng))
         elif r < 0.70:
             out.append(gen_request(rng, big=(i % 25 == 24)))
         elif r < 0.84:
@@ -1363,7 +1895,8 @@ def gen_mixed(rng, n):
         # re-use: an earlier request again, its query alone, or its query with another request's body
         if rng.random() < 0.08:
             old = rng.choice(out[-50:])
-            if old.get('kind') == 'req' and len(old['q']) + len(old.get('b') or '') < 4000:
+            if old.get('kind') == 'req' and len(old['q']) + len(old.get('b') or '') < 4000 \
+                    and not uses_new_dims(old):
                 new = {k: v for k, v in old.items() if k != 'truth'}
                 how = rng.choice(['again', 'query-only', 'other-body'])
                 if how == 'query-only':
@@ -1397,14 +1930,56 @@ def _worker(args):
     ctx = common.Ctx(mod, tier, seed)
     ctx.rng = random.Random(seed)
     ctx.lean = types.SimpleNamespace(driver_ok=True, ok=True)
+    c03_cov.start()
     check_requests(ctx, gen_mixed(ctx.rng, n))
     check_histories(ctx, [gen_history(ctx.rng) for _ in range(max(1, n // 8))])
-    return {'evaluations': ctx.evaluations, 'nontrivial': list(ctx._nontrivial), 'hist': ctx.hist,
+    c03_bind.check_units(ctx, _cherrypy(), max(1, n // 20))
+    return {'cov': c03_cov.take(), 'evaluations': ctx.evaluations, 'nontrivial': list(ctx._nontrivial), 'hist': ctx.hist,
             'oracle_failures': ctx.oracle_failures[:3], 'disagreements': ctx.disagreements[:3],
             'compared': ctx.disagreements_checked, 'samples': ctx.samples[:2], 'lines': ctx.driver.lines}
 
 
+def explain_unexecuted(rel, qualname, src):
+    """Why a line of an anchored function cannot run in this harness (None = it should have)."""
+    if qualname == '_parse_qs':
+        if 'strict_parsing' in src or 'bad query field' in src:
+            return 'strict_parsing is never passed by CherryPy (parse_query_string has no such argument)'
+        if src == 'continue':
+            return 'keep_blank_values=False only: Request.process_query_string never passes it'
+    if qualname == 'test_callable_spec':
+        if src in ('except TypeError:', 'raise', '(args, varargs, varkw,', 'defaults) = getargspec(callable.__call__)') \
+                or 'isinstance(callable, object)' in src:
+            return ('getargspec(callable) raising TypeError: inspect.getfullargspec accepts every callable a '
+                    'dispatcher can hand over')
+        if src == 'inspect.ismethod(callable)':
+            return "second operand of `hasattr(callable, '__call__') or ...`: every callable has __call__"
+    if qualname == 'LateParamPageHandler.kwargs' and '_kwargs' in src:
+        return 'handler.kwargs set by a dispatcher or tool (none is configured here; C02 covers dispatchers)'
+    if qualname == 'process_urlencoded' and 'entity.params[key]' in src:
+        return ('entity.params non-empty before the processor runs: neither RequestBody nor Part is ever constructed '
+                'with params (the final copy loop is the identity on {})')
+    if qualname == 'Entity.__init__':
+        if src in ('except ValueError:', 'pass'):
+            return 'non-numeric Content-Length: refused before CherryPy sees it (C05)'
+        if 'self.name' in src or 'self.filename' in src or 'filename*' in src or src in ('try:', 'raise cherrypy.HTTPError(') \
+                or src.startswith(('except (ValueError, LookupError)', 'encoding, lang, filename', '400,')):
+            return 'Content-Disposition of multipart parts (doubly quoted name, RFC 5987 filename*): property C04'
+    if qualname == 'RequestBody.__init__' and src == 'request_params = {}':
+        return 'RequestBody built without request_params: Request._do_respond always passes request.params'
+    return None
+
+
 def run(ctx):
+    cov = c03_cov.start()
+    try:
+        _run(ctx)
+    finally:
+        if cov is not None:
+            ctx.extra.setdefault('_cov_hits', []).extend(c03_cov.take())
+            c03_cov.report(ctx, ctx.extra.pop('_cov_hits'), explain_unexecuted)
+
+
+def _run(ctx):
     # fixed findings + corpus first
     first = [witness_case(e['witness']) for e in ctx.known if e.get('witness')]
     first += corpus_cases()
@@ -1420,10 +1995,12 @@ def run(ctx):
                                            'all %%X / %%XY items'
                                            % (ctx.budget(5, 6), ctx.budget(3, 4)))
     check_histories(ctx, corpus_histories())
+    check_dim_grid(ctx)
     if ctx.quick():
         check_histories(ctx, [gen_history(ctx.rng) for _ in range(700)])
         check_requests(ctx, gen_mixed(ctx.rng, 5000))
         check_histories(ctx, [gen_history(ctx.rng) for _ in range(300)])
+        c03_bind.check_units(ctx, _cherrypy(), 500)
     else:
         jobs = [(ctx.rng.getrandbits(48), 12500, ctx.tier) for _ in range(24)]
         for res in common.parallel_map(_worker, jobs):
@@ -1433,11 +2010,50 @@ def run(ctx):
                 ctx.count(k, v)
             ctx.disagreements_checked += res['compared']
             ctx.driver.lines += res['lines']
+            ctx.extra.setdefault('_cov_hits', []).extend(tuple(h) for h in res.get('cov', []))
             ctx.samples += res['samples'][:1] if len(ctx.samples) < 12 else []
             for case, what, sig in res['oracle_failures']:
                 ctx.oracle_fail(case, what, sig)
             for case, impl, model, what in res['disagreements']:
                 ctx.disagree(case, impl, model, what)
+
+
+def check_dim_grid(ctx):
+    """Systematic small scope over the dimensions around the parsers: every method x body present x Content-Type
+    label x Content-Length present x process_request_body x processors, with one fixed query and body."""
+    cases = []
+    for method in ('GET', 'POST', 'PUT', 'PATCH', 'DELETE', 'HEAD'):
+        for body in (None, b'a=2&b=%C3%A9', b''):
+            for media in (FORM, None, 'text/plain', 'Application/X-Www-Form-Urlencoded'):
+                for no_length in (False, True):
+                    for pb in (None, False):
+                        for procs in (None, 'empty', 'text-form'):
+                            if body is None and (media != FORM or no_length):
+                                continue
+                            c = {'kind': 'req', 'q': b'a=1&c=3'.hex(), 'qs_enc': None, 'method': method,
+                                 'b': None if body is None else body.hex(), 'declared': None, 'attempt_cfg': None,
+                                 'scenario': 'dim-grid', 'qfrags': [], 'bfrags': []}
+                            if media is None:
+                                c['no_ctype'] = True
+                            elif media != FORM:
+                                c['media'] = media
+                            if no_length:
+                                c['no_length'] = True
+                            if pb is not None:
+                                c['process_body'] = pb
+                            if procs is not None:
+                                c['processors'] = procs
+                            cases.append(c)
+    for uri in ('utf-8', 'ISO-8859-1', 'latin-1', 'ascii', 'utf-16'):
+        for path in (b'/', b'/\xe9', b'/\xc3\xa9', b'/ab'):
+            for q in (b'k=%C3%A9', b'k=\xc3\xa9', b'k=\xe9', b'k=v', b'\xc3\xa9=1&\xe9=2'):
+                cases.append({'kind': 'req', 'q': q.hex(), 'qs_enc': None, 'method': 'GET', 'b': None, 'declared': None,
+                              'attempt_cfg': None, 'uri_enc': uri, 'path': path.hex(), 'scenario': 'dim-grid-uri',
+                              'qfrags': [], 'bfrags': []})
+    check_requests(ctx, cases)
+    ctx.extra['exhaustive_dimension_grid'] = ('%d requests: method x body x Content-Type label x Content-Length x '
+                                              'process_request_body x processors; uri_encoding x path x query bytes'
+                                              % len(cases))
 
 
 def search(ctx, around=None):
@@ -1465,13 +2081,16 @@ def replay(ctx, case):
         print('impl   :', {'status': obs['status'], 'kw': obs['kw']})
         m = ctx.model([model_line(case)])
         if m:
-            print('model  :', canon_model(m[0]))
+            print('model  :', canon_model(m[0], case))
         print('oracle :', expected_of(case))
         check_requests(ctx, [case])
     elif kind in ('unit_qs', 'unit_body', 'unit'):
         print('impl qs  :', unit_parse_qs(case['s'], case.get('enc', 'utf-8')))
         print('impl body:', unit_urlencoded(case['s'].encode('utf-8'), case.get('attempts', ['utf-8'])))
         check_units(ctx, [case['s']], enc=case.get('enc', 'utf-8'), attempts=tuple(case.get('attempts', ['utf-8'])))
+    elif kind == 'bind':
+        c03_bind.replay_unit(ctx, _cherrypy(), case)
+        c03_bind.check_units(ctx, _cherrypy(), 50)
     elif kind == 'uqb':
         from cherrypy._cpreqbody import unquote_plus
         b = bytes.fromhex(case['b'])
